@@ -13,5 +13,6 @@ INVARIANT IdealUnique
 INVARIANT IsoInvariant
 INVARIANT ComponentsPartition
 INVARIANT FastEqual
+INVARIANT SinkDirectionality
 INVARIANT MetaFast
 INVARIANT Export
